@@ -4,6 +4,8 @@ import (
 	"go/constant"
 	"go/token"
 	"go/types"
+	"os"
+	"sort"
 	"strings"
 
 	"golang.org/x/tools/go/ssa"
@@ -892,7 +894,10 @@ func hrSplitURLKeepsEmptyParts(w *World, r *Report, rule string) {
 			}
 		}
 	})
-	r.Check(len(bad) == 0, rule, "splitURL/no-part-is-dropped", f.Pos(), "splitURL has no test for an empty part (none is skipped): %v", bad)
+	for _, c := range CallsIn(f, true, "strings.Fields", "strings.FieldsFunc") {
+		bad = append(bad, "strings.Fields* drops empty fields at "+w.Pos(posOf(c)))
+	}
+	r.Check(len(bad) == 0, rule, "splitURL/no-part-is-dropped", f.Pos(), "splitURL has no test for an empty part and no splitter that discards empty parts (none is skipped): %v", bad)
 }
 
 // hrFlowGraphNodeEqual: nodes are identified by their processor key.
@@ -2594,4 +2599,600 @@ func hrTotalCountsAllGroups(w *World, r *Report, rule string) {
 		ex = append(ex, loopExits(h, false)...)
 	}
 	r.Check(len(hs) == 1 && len(ex) == 0, rule, "totalQueueCount/sums-every-group", f.Pos(), "the loop over requestCounts is left only when every group was visited (early exits: %v)", ex)
+}
+
+// ---------------------------------------------------------------------------
+// part 8: ninth wave, second half
+
+// hrMessageArgsByName: each field of the on-request / on-response message is read from the SPOE argument of its own name.
+func hrMessageArgsByName(w *World, r *Report, rule string) {
+	want := map[string]string{"ID": "id", "SequenceID": "sequence_id", "Method": "method", "URL": "url", "Scheme": "scheme", "Path": "path", "Query": "query"}
+	for _, fn := range []string{"readRequestArgs", "readResponseArgs"} {
+		f := w.Fn(pkgRouting, fn)
+		if f == nil {
+			r.Undec(rule, fn, token.NoPos, "function not found")
+			continue
+		}
+		n := 0
+		var bad []string
+		for fld, arg := range want {
+			for _, st := range fieldStores(f, fld) {
+				if _, tn := namedOf(deref(st.Addr.(*ssa.FieldAddr).X.Type())); tn != "OnRequest" && tn != "OnResponse" {
+					continue
+				}
+				v := peel(unhelp(st.Val))
+				c, isC := v.(*ssa.Call)
+				if !isC || !isCallTo(c, "routing.extractArg") {
+					continue
+				}
+				n++
+				if s, isS := constString(c.Call.Args[0]); !isS || s != arg {
+					bad = append(bad, fld+"<-"+s)
+				}
+			}
+		}
+		r.Check(len(bad) == 0 && n >= 4, rule, fn+"/fields-from-arguments-of-their-own-name", f.Pos(), "id, sequence_id, method, url (...) are each stored in the field of that name (%d stores; mismatches %v): the policy version of a transaction is pinned under its id", n, bad)
+	}
+}
+
+// hrDiagnosisWorkerKey: a finished transaction is diagnosed with the policies pinned under the key it was queued with.
+func hrDiagnosisWorkerKey(w *World, r *Report, rule string) {
+	f := w.Fn(pkgRunner, "DiagnosisWorker.diagnosisWorker")
+	if f == nil {
+		r.Undec(rule, "diagnosisWorker", token.NoPos, "function not found")
+		return
+	}
+	cs := CallsIn(f, false, "PoliciesAccessor).GetTxnPoliciesData")
+	ok := len(cs) == 1
+	if ok {
+		a := margs(cs[0])
+		ok = strings.Contains(Path(a[0]), "param:diagnosisTasks") && !strings.Contains(Path(a[0]), "SequenceID")
+	}
+	r.Check(ok, rule, "diagnosisWorker/policies-of-the-queued-transaction-id", f.Pos(), "GetTxnPoliciesData is asked with the key received from the task queue (the transaction id the pin was made under)")
+}
+
+// hrWriteErrorReturned: applying raw policies reports a failed write of the policies file.
+func hrWriteErrorReturned(w *World, r *Report, rule string) {
+	f := w.Fn(pkgConfig, "TxnPoliciesAccessor.UpdateRawData")
+	if f == nil {
+		r.Undec(rule, "UpdateRawData", token.NoPos, "function not found")
+		return
+	}
+	cs := CallsIn(f, false, "os.WriteFile")
+	ok := len(cs) == 1 && errReturned(f, cs[0])
+	r.Check(ok, rule, "UpdateRawData/write-error-returned", f.Pos(), "the error of writing the policies file is what UpdateRawData returns (the handler reloads from that file next)")
+}
+
+// hrEarlyResponseMessage: the synthetic on-response message of an early response describes that response and that request.
+func hrEarlyResponseMessage(w *World, r *Report, rule string) {
+	f := w.Fn(pkgRunner, "obtainModifiedEarlyResponse")
+	if f == nil {
+		r.Undec(rule, "obtainModifiedEarlyResponse", token.NoPos, "function not found")
+		return
+	}
+	fromReq := map[string]bool{"ID": true, "SequenceID": true, "Method": true, "URL": true}
+	n := 0
+	Instrs(f, func(in ssa.Instruction) {
+		a, isA := in.(*ssa.Alloc)
+		if !isA || structOf(a.Type()) != "OnResponse" {
+			return
+		}
+		if singleFieldStoreByName(a, "URL") == nil {
+			return // a copy, not where the message is built
+		}
+		n++
+		for _, fld := range []string{"ID", "SequenceID", "Method", "URL", "Status", "Headers", "Body"} {
+			v := singleFieldStoreByName(a, fld)
+			p := pathOrNone(v)
+			var ok bool
+			if fromReq[fld] {
+				ok = strings.HasSuffix(p, "onRequest."+fld)
+			} else {
+				ok = strings.HasPrefix(p, "assert(") && strings.HasSuffix(p, "."+fld)
+			}
+			r.Check(ok, rule, "obtainModifiedEarlyResponse/message/"+fld, a.Pos(), "OnResponse.%s <- %s (want %s)", fld, trunc(p, 80), map[bool]string{true: "the request's " + fld, false: "the early response's " + fld}[fromReq[fld]])
+		}
+	})
+	r.Check(n == 1, rule, "obtainModifiedEarlyResponse/message", f.Pos(), "one synthetic OnResponse message built (%d found)", n)
+}
+
+// hrAnyEnabledDiagnosis: a transaction is diagnosed when any applicable diagnosis is enabled.
+func hrAnyEnabledDiagnosis(w *World, r *Report, rule string) {
+	f := w.Fn(pkgRunner, "shouldDiagnose")
+	if f == nil {
+		r.Undec(rule, "shouldDiagnose", token.NoPos, "function not found")
+		return
+	}
+	some, all := 0, 0
+	Instrs(f, func(in ssa.Instruction) {
+		if c, isC := in.(ssa.CallInstruction); isC {
+			id := calleeID(c)
+			if strings.Contains(id, "lo.SomeBy") || strings.Contains(id, "slices.ContainsFunc") {
+				some++
+			}
+			if strings.Contains(id, "lo.EveryBy") || strings.Contains(id, "lo.NoneBy") {
+				all++
+			}
+		}
+	})
+	for _, alt := range ReturnAlts(f, 0) {
+		if b, isB := constBool(alt.Val); isB && b {
+			inLoop := false
+			for _, h := range loopHeadersOf(f) {
+				if loopHas(h, alt.Ret.Block()) || len(alt.Conds) > 0 && loopHas(h, alt.Conds[len(alt.Conds)-1].If.Block()) {
+					inLoop = true
+				}
+			}
+			if inLoop {
+				some++
+			}
+		}
+	}
+	r.Check(some >= 2 && all == 0, rule, "shouldDiagnose/any-enabled-diagnosis", f.Pos(), "both the global and the endpoint list are asked whether ANY entry is enabled (%d any-tests, %d all/none-tests)", some, all)
+}
+
+// hrFreshElementPerIteration: what a loop appends by address is created inside that loop.
+func hrFreshElementPerIteration(w *World, r *Report, rule string, pkg string, fns ...string) {
+	n := 0
+	for _, name := range fns {
+		f := w.Fn(pkg, name)
+		if f == nil {
+			continue
+		}
+		hs := loopHeadersOf(f)
+		ok := true
+		var bad []string
+		Instrs(f, func(in ssa.Instruction) {
+			c, isC := in.(*ssa.Call)
+			if !isC {
+				return
+			}
+			b, isB := c.Call.Value.(*ssa.Builtin)
+			if !isB || b.Name() != "append" || len(c.Call.Args) != 2 {
+				return
+			}
+			var loop *ssa.BasicBlock
+			for _, h := range hs {
+				if loopHas(h, c.Block()) {
+					loop = h
+				}
+			}
+			if loop == nil {
+				return
+			}
+			var base ssa.Value = c.Call.Args[1]
+			if sl, isSl := base.(*ssa.Slice); isSl {
+				base = sl.X
+			}
+			for _, st := range partStores(base, 2) {
+				a, isA := st.Val.(*ssa.Alloc)
+				if !isA || !a.Heap {
+					continue
+				}
+				n++
+				if !loopHas(loop, a.Block()) {
+					ok = false
+					bad = append(bad, w.Pos(a.Pos()))
+				}
+			}
+		})
+		r.Check(ok, rule, name+"/appended-element-is-created-in-the-iteration", f.Pos(), "every element appended by address inside the loop is a variable of that iteration (declared outside: %v)", bad)
+	}
+	r.Check(n >= 1, rule, "appended-elements/instances", token.NoPos, "%d by-address appends inspected in %v", n, fns)
+}
+
+// hrWildcardIsAWholePart: a URL part is the wildcard only when it is exactly "*".
+func hrWildcardIsAWholePart(w *World, r *Report, rule string) {
+	f := w.Fn(pkgURLTree, "validateURL")
+	if f == nil {
+		r.Undec(rule, "validateURL", token.NoPos, "function not found")
+		return
+	}
+	eq, sub := 0, 0
+	Instrs(f, func(in ssa.Instruction) {
+		switch x := in.(type) {
+		case *ssa.BinOp:
+			if x.Op == token.EQL || x.Op == token.NEQ {
+				if s, isS := constString(x.Y); isS && s == "*" {
+					eq++
+				}
+				if s, isS := constString(x.X); isS && s == "*" {
+					eq++
+				}
+			}
+		case ssa.CallInstruction:
+			if isCallTo(x, "strings.Contains", "strings.HasPrefix", "strings.HasSuffix", "strings.ContainsRune", "strings.Index") {
+				for _, a := range x.Common().Args {
+					if s, isS := constString(a); isS && s == "*" {
+						sub++
+					}
+				}
+			}
+		}
+	})
+	r.Check(eq >= 1 && sub == 0, rule, "validateURL/wildcard-is-a-whole-part", f.Pos(), "a part counts as the wildcard by equality with \"*\" (%d tests), never by containing it (%d tests): `a*b` is a literal part", eq, sub)
+}
+
+// hrEveryRunResultParses: each run result the engine writes into the access log is read back.
+func hrEveryRunResultParses(w *World, r *Report, rule string) {
+	for _, e := range []struct{ fn, typ string }{{"ParseRemedyRespRunResult", "RemedyRespRunResult"}} {
+		f := w.Fn("lunar/shared-model/actions", e.fn)
+		named := w.Named("lunar/shared-model/actions", e.typ)
+		if f == nil || named == nil {
+			r.Undec(rule, e.fn, token.NoPos, "function or type not found")
+			continue
+		}
+		// the constants of the type
+		all := map[int64]string{}
+		var max int64 = -1
+		sc := named.Obj().Pkg().Scope()
+		for _, nm := range sc.Names() {
+			if c, isC := sc.Lookup(nm).(*types.Const); isC && types.Identical(c.Type(), named) {
+				if v, isV := constant.Int64Val(c.Val()); isV {
+					all[v] = nm
+					if v > max {
+						max = v
+					}
+				}
+			}
+		}
+		got := map[int64]bool{}
+		loopOK := false
+		for _, alt := range ReturnAlts(f, 0) {
+			if k, isK := constInt(alt.Val); isK {
+				got[k] = true
+				continue
+			}
+			// loop form: the returned value is the loop variable, bounded by the last constant inclusively
+			for _, rel := range relsOfConds(alt.Conds) {
+				ph, isPhi := peel(rel.L).(*ssa.Phi)
+				if k, isK := constInt(rel.R); isK && isPhi && types.Identical(ph.Type(), named) && (rel.Op == "<=" && k == max || rel.Op == "<" && k == max+1) {
+					for _, h := range loopHeadersOf(f) {
+						if ph.Block() == h {
+							loopOK = true
+						}
+					}
+				}
+			}
+		}
+		var miss []string
+		for v, nm := range all {
+			if !got[v] && !loopOK && nm != "RespUndefined" && nm != "ReqUndefined" && !strings.Contains(nm, "Undefined") {
+				miss = append(miss, nm)
+			}
+		}
+		sort.Strings(miss)
+		r.Check(len(miss) == 0 && len(all) >= 3, rule, e.fn+"/every-value-parses", f.Pos(), "every %s constant can be the result (missing %v; loop over all values=%v)", e.typ, miss, loopOK)
+	}
+}
+
+// hrDecodeKeepsAccumulated: a record that does not decode is skipped; what was decoded before it stays.
+func hrDecodeKeepsAccumulated(w *World, r *Report, rule string) {
+	f := w.Fn(pkgDisc, "DecodeRecords")
+	if f == nil {
+		r.Undec(rule, "DecodeRecords", token.NoPos, "function not found")
+		return
+	}
+	ok, n := true, 0
+	var bad []string
+	seen := map[ssa.Value]bool{}
+	var walk func(v ssa.Value, d int)
+	walk = func(v ssa.Value, d int) {
+		if v == nil || seen[v] || d > 12 {
+			return
+		}
+		seen[v] = true
+		switch x := v.(type) {
+		case *ssa.Phi:
+			for _, e := range x.Edges {
+				walk(e, d+1)
+			}
+		case *ssa.Const:
+			if x.Value == nil {
+				ok = false
+				bad = append(bad, "nil")
+			}
+		case *ssa.Call:
+			if b, isB := x.Call.Value.(*ssa.Builtin); isB && b.Name() == "append" {
+				walk(x.Call.Args[0], d+1)
+			}
+		case *ssa.Extract:
+			if c, isC := x.Tuple.(*ssa.Call); isC {
+				if h := helperCall(c); h != nil {
+					for _, alt := range ReturnAlts(h.fn, x.Index) {
+						walk(alt.Val, d+1)
+					}
+				}
+			}
+		case *ssa.Parameter:
+			if u := unhelp(x); u != ssa.Value(x) {
+				walk(u, d+1)
+			}
+		}
+	}
+	for _, alt := range ReturnAlts(f, 0) {
+		n++
+		walk(alt.Val, 0)
+	}
+	r.Check(ok && n >= 1, rule, "DecodeRecords/accumulated-records-survive-a-bad-one", f.Pos(), "the returned slice only ever grows by append; no path resets it (%v)", bad)
+}
+
+// hrObfuscationFlagAlwaysRead: whether obfuscation is on does not depend on the exclusions being given.
+func hrObfuscationFlagAlwaysRead(w *World, r *Report, rule string) {
+	f := w.Fn("lunar/engine/streams/processors/har-collector", "harCollectorProcessor.init")
+	if f == nil {
+		r.Undec(rule, "harCollectorProcessor.init", token.NoPos, "function not found")
+		return
+	}
+	var flag ssa.CallInstruction
+	for _, c := range CallsIn(f, false, "utils.ExtractBoolParam") {
+		if strings.HasSuffix(Path(c.Common().Args[2]), ".obfuscateEnabled") {
+			flag = c
+		}
+	}
+	ok := flag != nil
+	var dep []string
+	if ok {
+		for _, cd := range append(CondsOf(flag.Block()), siteConds(flag.Block(), 3)...) {
+			if p := Path(cd.V); strings.Contains(p, "ExtractListOfStringParam") {
+				ok = false
+				dep = append(dep, trunc(p, 60))
+			}
+		}
+		// and it is on the way to the successful return
+		for _, alt := range ReturnAlts(f, 0) {
+			if isNilConst(alt.Val) && !domInstr(flag, alt.Ret) {
+				ok = false
+				dep = append(dep, "a successful return not preceded by the read")
+			}
+		}
+	}
+	r.Check(ok, rule, "harCollectorProcessor.init/obfuscate-flag-read-on-every-successful-init", f.Pos(), "obfuscate_enabled is read whether or not obfuscate_exclusions is given (depends on: %v)", dep)
+}
+
+// hrDecompressFallsBackToRaw: a body that does not decompress is exported as it is (and obfuscated), not replaced.
+func hrDecompressFallsBackToRaw(w *World, r *Report, rule string) {
+	for _, loc := range []struct{ pkg, fn string }{{"lunar/engine/services/diagnoses", "ensureDecompressedBody"}} {
+		f := w.Fn(loc.pkg, loc.fn)
+		if f == nil {
+			r.Undec(rule, loc.fn, token.NoPos, "function not found")
+			continue
+		}
+		ok, n := true, 0
+		for _, alt := range ReturnAlts(f, 0) {
+			n++
+			failed := condsHave(alt.Conds, true, func(v ssa.Value) bool {
+				return strings.Contains(Path(v), "DecompressGZip(") && strings.HasSuffix(Path(v), "#1 != nil)")
+			})
+			for _, rel := range relsOfConds(alt.Conds) {
+				if rel.Op == "!=" && isNilConst(rel.R) && strings.Contains(Path(rel.L), "DecompressGZip(") {
+					failed = true
+				}
+			}
+			succeeded := false
+			for _, rel := range relsOfConds(alt.Conds) {
+				if rel.Op == "==" && isNilConst(rel.R) && strings.Contains(Path(rel.L), "DecompressGZip(") {
+					succeeded = true
+				}
+			}
+			p := Path(alt.Val)
+			if failed && p != "param:rawBody" {
+				ok = false
+			}
+			if strings.Contains(p, "DecompressGZip(") && !succeeded {
+				ok = false // the decompressor's result is used although it may have failed
+			}
+			if !failed && p != "param:rawBody" && !strings.Contains(p, "DecompressGZip(") {
+				ok = false
+			}
+		}
+		r.Check(ok && n >= 2, rule, loc.fn+"/raw-body-when-decompression-fails", f.Pos(), "the result is the decompressed body, or the raw body when there is nothing to decompress or decompression fails (%d returns)", n)
+	}
+}
+
+// hrHARPluginHasher: the legacy HAR exporter hashes what it obfuscates.
+func hrHARPluginHasher(w *World, r *Report, rule string) {
+	n, ok := 0, true
+	for _, cs := range w.CallSites("diagnoses.NewHARGeneratorPlugin") {
+		if strings.HasSuffix(w.Fset.Position(cs.In.Pos()).Filename, "_test.go") {
+			continue
+		}
+		n++
+		found := false
+		for _, a := range cs.In.Common().Args {
+			if structOf(a.Type()) != "Obfuscator" {
+				continue
+			}
+			h := litField(a, "Hasher")
+			if h == nil {
+				continue
+			}
+			if mi, isMI := peel(h).(*ssa.MakeInterface); isMI && structOf(mi.X.Type()) == "MD5Hasher" {
+				found = true
+			} else if structOf(peel(h).Type()) == "MD5Hasher" {
+				found = true
+			}
+		}
+		if !found {
+			ok = false
+		}
+	}
+	r.Check(ok && n >= 1, rule, "NewHARGeneratorPlugin/md5-hasher", token.NoPos, "the engine builds the HAR generator with Obfuscator{Hasher: MD5Hasher{}} (%d construction sites)", n)
+}
+
+// hrDuplicateEdgeByEquality: an edge is a duplicate when it equals an existing one, not when it is the same pointer.
+func hrDuplicateEdgeByEquality(w *World, r *Report, rule string) {
+	f := w.Fn(pkgFlow, "FlowGraphNode.addEdge")
+	if f == nil {
+		r.Undec(rule, "addEdge", token.NoPos, "function not found")
+		return
+	}
+	byEqual := len(CallsIn(f, false, "ConnectionEdge).equal")) > 0
+	ptr := 0
+	Instrs(f, func(in ssa.Instruction) {
+		switch x := in.(type) {
+		case *ssa.MakeClosure:
+			if fn, isFn := x.Fn.(*ssa.Function); isFn && strings.Contains(fn.Name(), "equal") {
+				byEqual = true
+			}
+		case ssa.CallInstruction:
+			if isCallTo(x, "slices.Contains", "slices.Index") {
+				ptr++
+			}
+		case *ssa.BinOp:
+			if x.Op == token.EQL && strings.Contains(x.X.Type().String(), "ConnectionEdge") {
+				ptr++
+			}
+		}
+	})
+	r.Check(byEqual && ptr == 0, rule, "addEdge/duplicate-decided-by-equal", f.Pos(), "an edge is skipped when ConnectionEdge.equal says it already exists (by-equality=%v, pointer comparisons=%d): a Retry reached twice must not run twice", byEqual, ptr)
+}
+
+// hrCycleCheckSkippedOnlyWithoutRoot: only a response direction WITHOUT a root is exempt from the cycle check.
+func hrCycleCheckSkippedOnlyWithoutRoot(w *World, r *Report, rule string) {
+	n := 0
+	for _, name := range []string{"validateDirection", "detectCircularConnections"} {
+		f := w.Fn(pkgFlow, name)
+		if f == nil {
+			r.Undec(rule, name, token.NoPos, "function not found")
+			continue
+		}
+		for _, alt := range ReturnAlts(f, 0) {
+			if !isNilConst(alt.Val) {
+				continue
+			}
+			isResp := condsHave(alt.Conds, true, func(v ssa.Value) bool { return isCallTo0(v, "StreamType).IsResponseType", "FlowType).IsResponseType") })
+			if !isResp {
+				continue
+			}
+			n++
+			noRoot := condsHave(alt.Conds, false, func(v ssa.Value) bool { return isCallTo0(v, "FlowDirection).HasValidRoot") })
+			r.Check(noRoot, rule, name+"/response-direction-exempt-only-without-root", posOf(alt.Ret), "a response direction leaves validation early only when it has no valid root (a rooted response graph is walked for cycles: a retry output routed back into Retry never ends)")
+		}
+	}
+	r.Check(n >= 1, rule, "cycle-check/exemptions", token.NoPos, "%d early exits for response directions inspected", n)
+}
+
+// hrNewResponseKeepsIdentity: every response object built from a message carries its ids.
+func hrNewResponseKeepsIdentity(w *World, r *Report, rule string) {
+	f := w.Fn(pkgStreamTypes, "NewResponse")
+	if f == nil {
+		r.Undec(rule, "NewResponse", token.NoPos, "function not found")
+		return
+	}
+	n := 0
+	Instrs(f, func(in ssa.Instruction) {
+		a, isA := in.(*ssa.Alloc)
+		if !isA || structOf(a.Type()) != "OnResponse" || !a.Heap {
+			return
+		}
+		if pk, _ := namedOf(deref(a.Type())); pk != pkgStreamTypes {
+			return
+		}
+		n++
+		var miss []string
+		for _, fld := range []string{"ID", "SequenceID", "Method", "URL", "Status", "Headers"} {
+			v := singleFieldStoreByName(a, fld)
+			if v == nil || !strings.HasSuffix(Path(v), "onResponse."+fld) {
+				miss = append(miss, fld)
+			}
+		}
+		r.Check(len(miss) == 0, rule, "NewResponse/identity-fields-copied", a.Pos(), "ID, SequenceID, Method, URL, Status and Headers are copied from the message (missing %v): the retry counter is kept per sequence id", miss)
+	})
+	r.Check(n >= 1, rule, "NewResponse/literals", f.Pos(), "%d response objects built", n)
+}
+
+// hrTruncatingWrite: a snapshot file is replaced, not overwritten in place.
+func hrTruncatingWrite(w *World, r *Report, rule string) {
+	f := w.Fn("lunar/toolkit-core/configuration", "EncodeYAML")
+	if f == nil {
+		r.Undec(rule, "EncodeYAML", token.NoPos, "function not found")
+		return
+	}
+	ok := len(CallsIn(f, false, "os.WriteFile")) == 1
+	for _, c := range CallsIn(f, false, "os.OpenFile") {
+		if k, isK := constInt(c.Common().Args[1]); isK && k&int64(os.O_TRUNC) != 0 && k&int64(os.O_APPEND) == 0 {
+			ok = true
+		} else {
+			ok = false
+		}
+	}
+	if len(CallsIn(f, false, "os.Create")) == 1 {
+		ok = true
+	}
+	r.Check(ok, rule, "EncodeYAML/truncating-write", f.Pos(), "the file is written with os.WriteFile / os.Create / O_TRUNC (a shorter document must not keep the tail of the longer one before it)")
+}
+
+// hrHealthyIsConjunction: past the presence checks the predicate is rate == healthy AND last session > max.
+func hrHealthyIsConjunction(w *World, r *Report, rule string) {
+	f := w.Fn(pkgFailsafe, "areSPOEConnectionsHealthy")
+	if f == nil {
+		r.Undec(rule, "areSPOEConnectionsHealthy", token.NoPos, "function not found")
+		return
+	}
+	isRate := func(a string) bool {
+		return strings.Contains(a, "SessionRate") && strings.Contains(a, "HealthySessionRate") && strings.Contains(a, " == ")
+	}
+	isLast := func(a string) bool {
+		return strings.Contains(a, "LastSession") && strings.Contains(a, "HealthyMaxLastSession") && strings.Contains(a, " < ")
+	}
+	nT, nF, ok := 0, 0, true
+	for _, c := range decisionOf(f, 0) {
+		evaluated := false
+		var rate, last *bool
+		for a, pol := range c.lits {
+			p := pol
+			if strings.HasSuffix(a, ".LastSession == nil)") && !pol {
+				evaluated = true
+			}
+			if isRate(a) {
+				rate = &p
+			}
+			if isLast(a) {
+				last = &p
+			}
+		}
+		if !evaluated || (rate == nil && last == nil) {
+			continue
+		}
+		switch c.val {
+		case "true":
+			nT++
+			if rate == nil || last == nil || !*rate || !*last {
+				ok = false
+			}
+		case "false":
+			nF++
+			if !(rate != nil && !*rate || last != nil && !*last) {
+				ok = false
+			}
+		}
+	}
+	r.Check(ok && nT >= 1 && nF >= 1, rule, "areSPOEConnectionsHealthy/rate-and-last-session", f.Pos(), "with both statistics present the answer is true exactly when the session rate equals the healthy rate AND the last session is older than the maximum (%d true rows, %d false rows)", nT, nF)
+}
+
+// hrGlobalUnmanagedWithEndpoints: the immediate unmanage path drops manage-all whenever it has to, whatever the endpoint difference is.
+func hrGlobalUnmanagedWithEndpoints(w *World, r *Report, rule string) {
+	f := w.Fn(pkgConfig, "TxnPoliciesAccessor.UpdatePoliciesData")
+	if f == nil {
+		r.Undec(rule, "UpdatePoliciesData", token.NoPos, "function not found")
+		return
+	}
+	cs := CallsIn(f, false, "config.unmanageGlobalVoided")
+	ok := len(cs) >= 1
+	var extra []string
+	for _, c := range cs {
+		for _, cd := range append(CondsOf(c.Block()), siteConds(c.Block(), 3)...) {
+			p := Path(cd.V)
+			switch {
+			case p == "param:unmanageImmediately" && cd.Pol:
+			case strings.Contains(p, "ManageAll"):
+			case strings.Contains(p, "ManageHAProxyEndpoints(") || strings.Contains(p, "!= nil") && !cd.Pol:
+			default:
+				ok = false
+				extra = append(extra, trunc(condsString([]Cond{cd}), 80))
+			}
+		}
+	}
+	r.Check(ok, rule, "UpdatePoliciesData/global-unmanaged-at-once-when-needed", f.Pos(), "unmanageGlobalVoided runs under unmanageImmediately and the manage-all difference only (further conditions: %v)", extra)
 }
